@@ -249,3 +249,21 @@ Record WF (ext : list string) (d : design) : Prop := {
       (forall m mn params iname conns c, In m d -> In (IInst mn params iname conns) (m_items m) -> defines d mn c ->
                                          (rank mn < rank (m_name m))%nat)
 }.
+
+(* ---------------------------------------------------------------- the fragment Model/VSem.v elaborates
+   (no memories, no negedge processes, no parameters) and the fuel `elaborate` needs: one unit per item on
+   the way down, and an instantiation chain is at most |d| deep *)
+Definition item_in_fragment (it : item) : Prop :=
+  match it with
+  | IMem _ _ _ => False
+  | IAlways (EvNeg _) _ => False
+  | IInst _ params _ _ => params = []
+  | _ => True
+  end.
+
+Definition vsem_fragment (d : design) : Prop :=
+  forall m, In m d -> m_params m = [] /\ forall it, In it (m_items m) -> item_in_fragment it.
+
+Definition max_items (d : design) : nat := fold_right (fun m acc => Nat.max (length (m_items m)) acc) O d.
+
+Definition elab_fuel (d : design) : nat := (S (length d) * S (max_items d))%nat.
